@@ -853,7 +853,31 @@ func sizeBounded(pr *Prog, at *ssa.BasicBlock, size ssa.Value, depth int) bool {
 	}
 	p := wireDerived(size)
 	if p == nil {
-		return false // neither a constant nor a parameter: a value decoded here, with no bound in sight
+		// a value decoded in this function (a header field, a call result): bounded when a dominating
+		// comparison bounds that very value, seen through lossless conversions only
+		base, ok := losslessBase(size)
+		if !ok {
+			return false
+		}
+		for _, ft := range Facts(at) {
+			bo, isB := ft.Cond.(*ssa.BinOp)
+			if !isB {
+				continue
+			}
+			_, yC := ConstInt(bo.Y)
+			_, xC := ConstInt(bo.X)
+			same := func(v ssa.Value) bool {
+				b2, ok2 := losslessBase(v)
+				return ok2 && (b2 == base || sameExpr(b2, base))
+			}
+			switch {
+			case yC && same(bo.X) && ((bo.Op == token.GTR && !ft.Pol) || (bo.Op == token.GEQ && !ft.Pol) || (bo.Op == token.LEQ && ft.Pol) || (bo.Op == token.LSS && ft.Pol)):
+				return true
+			case xC && same(bo.Y) && ((bo.Op == token.LSS && !ft.Pol) || (bo.Op == token.LEQ && !ft.Pol) || (bo.Op == token.GEQ && ft.Pol) || (bo.Op == token.GTR && ft.Pol)):
+				return true
+			}
+		}
+		return false
 	}
 	for _, ft := range Facts(at) {
 		bo, isB := ft.Cond.(*ssa.BinOp)
@@ -921,4 +945,52 @@ func closureWrites(al *ssa.Alloc) bool {
 		}
 	}
 	return false
+}
+
+// losslessBase peels conversions that keep every value (widening, same width and signedness) and
+// loads of single-assignment cells; ok is false when a narrowing or sign-changing conversion is met.
+func losslessBase(v ssa.Value) (ssa.Value, bool) {
+	for i := 0; i < 8; i++ {
+		switch x := v.(type) {
+		case *ssa.ChangeType:
+			v = x.X
+			continue
+		case *ssa.Convert:
+			from, ok1 := x.X.Type().Underlying().(*types.Basic)
+			to, ok2 := x.Type().Underlying().(*types.Basic)
+			if !ok1 || !ok2 || from.Info()&types.IsInteger == 0 || to.Info()&types.IsInteger == 0 {
+				return nil, false
+			}
+			size := func(b *types.Basic) int {
+				switch b.Kind() {
+				case types.Int8, types.Uint8:
+					return 8
+				case types.Int16, types.Uint16:
+					return 16
+				case types.Int32, types.Uint32:
+					return 32
+				default:
+					return 64
+				}
+			}
+			fu, tu := from.Info()&types.IsUnsigned != 0, to.Info()&types.IsUnsigned != 0
+			switch {
+			case fu == tu && size(to) >= size(from):
+			case fu && !tu && size(to) > size(from):
+			default:
+				return nil, false
+			}
+			v = x.X
+			continue
+		case *ssa.UnOp:
+			if al, isA := x.X.(*ssa.Alloc); isA && x.Op == token.MUL {
+				if sts := storesTo(al); len(sts) == 1 && !closureWrites(al) {
+					v = sts[0].Val
+					continue
+				}
+			}
+		}
+		break
+	}
+	return v, true
 }
